@@ -2,7 +2,11 @@ package main
 
 import (
 	"flag"
+
 	"fmt"
+	"go/types"
+
+	"golang.org/x/tools/go/ssa"
 	"os"
 	"path/filepath"
 	"sort"
@@ -88,29 +92,48 @@ func buildVCs(P *Program, names []string) ([]*VC, []error) {
 			errs = append(errs, fmt.Errorf("no contract named %s", n))
 			continue
 		}
-		fn := P.funcs[n]
-		if fn == nil {
+		type inst struct {
+			fn   *ssa.Function
+			name string
+		}
+		var insts []inst
+		if fn := P.funcs[n]; fn != nil && len(fn.Blocks) > 0 && !(fn.TypeParams().Len() > 0 && len(fn.TypeArgs()) == 0) {
+			insts = append(insts, inst{fn, spec.Name})
+		} else {
+			// a contract on a generic function or method covers every instance the program contains
+			var names []string
+			for k, f := range P.funcs {
+				if strings.Contains(k, "[") && stripTypeArgs(k) == n && len(f.Blocks) > 0 && concreteInstance(f) {
+					names = append(names, k)
+				}
+			}
+			sort.Strings(names)
+			for _, k := range names {
+				insts = append(insts, inst{P.funcs[k], k})
+			}
+		}
+		if len(insts) == 0 {
 			errs = append(errs, fmt.Errorf("%s:%d: contract for %s does not resolve to a function in the current tree", shortPath(spec.File), spec.Line, n))
 			continue
 		}
-		if len(fn.Blocks) == 0 {
-			errs = append(errs, fmt.Errorf("%s has no body to verify", n))
-			continue
+		for _, in := range insts {
+			// pass 1: discover what each block writes; pass 2: the real run
+			vc := newVC(P, in.fn, spec)
+			vc.name = in.name
+			vc.discover = true
+			if err := vc.run(); err != nil {
+				errs = append(errs, err)
+				continue
+			}
+			vc.reset()
+			vc.name = in.name
+			if err := vc.run(); err != nil {
+				errs = append(errs, err)
+				continue
+			}
+			vc.attachReplay()
+			vcs = append(vcs, vc)
 		}
-		// pass 1: discover what each block writes; pass 2: the real run
-		vc := newVC(P, fn, spec)
-		vc.discover = true
-		if err := vc.run(); err != nil {
-			errs = append(errs, err)
-			continue
-		}
-		vc.reset()
-		if err := vc.run(); err != nil {
-			errs = append(errs, err)
-			continue
-		}
-		vc.attachReplay()
-		vcs = append(vcs, vc)
 	}
 	return vcs, errs
 }
@@ -234,4 +257,39 @@ func runList(repo, verif string) int {
 	fmt.Printf("%d functions, %d obligations, generated in %s\n", len(vcs), total, time.Since(start))
 	_ = filepath.Join
 	return 0
+}
+
+// concreteInstance: every type argument of the instantiation (and of the receiver) is a concrete type.
+func concreteInstance(f *ssa.Function) bool {
+	hasParam := false
+	var visit func(t types.Type, depth int)
+	visit = func(t types.Type, depth int) {
+		if depth > 6 || t == nil {
+			return
+		}
+		switch u := types.Unalias(t).(type) {
+		case *types.TypeParam:
+			hasParam = true
+		case *types.Named:
+			if ta := u.TypeArgs(); ta != nil {
+				for i := 0; i < ta.Len(); i++ {
+					visit(ta.At(i), depth+1)
+				}
+			}
+		case *types.Pointer:
+			visit(u.Elem(), depth+1)
+		case *types.Slice:
+			visit(u.Elem(), depth+1)
+		}
+	}
+	for _, ta := range f.TypeArgs() {
+		visit(ta, 0)
+	}
+	if r := f.Signature.Recv(); r != nil {
+		visit(r.Type(), 0)
+	}
+	for i := 0; i < f.Signature.Params().Len(); i++ {
+		visit(f.Signature.Params().At(i).Type(), 0)
+	}
+	return !hasParam
 }
